@@ -8,20 +8,25 @@ Tie: T + K.
      hand-written model assumes).
   K  hand-written model lean/PyrollModel/Heap.lean (objects with identity, strong fields, weak back-links; solve as an
      effect trace; deep copy with memo; list edits).  One case = one HISTORY on real objects: build 1-2 caller
-     profiles, grooves, roll templates, up to 6 units (two-/three-roll passes, transports, cooling pipes, rotators,
-     disk elements, nested sequences), then solve / re-solve (whole sequence or one unit) / keep handles / deep copy /
-     append / replace / change a gap / register a hook implementation on a throw-away subclass.  After every op the
-     harness compares with the model (same op lines)
+     profiles, grooves, roll templates (optionally looked at by the caller before use, optionally ONE Roll object for
+     two passes), up to 6 units (two-/three-roll passes with rotation off / automatic / an explicit angle, transports,
+     cooling pipes, 0-2 explicit rotators of any angle between two passes, disk elements, nested sequences), then solve
+     / re-solve (whole sequence or one unit) / walk through a sequence unit by unit / keep handles / deep copy /
+     append / replace / change a gap / read values on a profile, template, unit or roll / register a hook
+     implementation on a throw-away subclass.  After every op the harness compares with the model (same op lines)
         * the names of the pre-existing objects whose `__dict__` / `__cache__` / content changed  vs  the write
           targets of the model's effect trace, and
         * the canonical aliasing graph of everything it holds a handle on (identities renamed by first appearance:
-          which profile entries are the same object, every parent / unit / roll_pass / owner back-link).
+          which profile entries are the same object, every parent / unit / roll_pass / owner back-link; for roll
+          templates, pass rolls and plain profiles whether the hook value cache holds anything).
 
 The independent oracle (class Oracle) is written from the property text: inputs (caller's profiles, grooves, roll
 templates - identity AND deep value of `__dict__` and `__cache__`) unchanged by every op; profiles outside the solved
 sub-tree and profiles already returned unchanged by later ops; no mutable value (set/list/dict/ndarray) reachable
-from any profile ever changes content after it was first seen; a deep copy shares no unit / profile / roll /
-sub-unit list with the original and every back-reference inside the copy points into the copy.
+from any profile ever changes content after it was first seen; a unit / pass roll outside the solved sub-tree keeps
+its entries and every value it has evaluated (its cache may only gain entries); no two objects share one hook value
+cache; a deep copy shares no unit / profile / roll / sub-unit list with the original and every back-reference inside
+the copy points into the copy.
 """
 import copy
 import logging
@@ -33,10 +38,14 @@ LEAN_MODULES = ["PyrollProps.C12"]
 MODEL = "c12"                                   # lean/Drivers/c12.lean
 MODEL_MODULES = ["PyrollModel.HeapDriver"]
 RULE = ("random histories on real objects: 1-2 caller profiles (round 30 mm / 55 mm, extra mutable entries: material list, "
-        "composition dict, ndarray, tag set), 1-6 units in rolling order (two-roll oval/round chain or three-roll chain, "
-        "transports, cooling pipes, explicit rotators, auto-rotation on/off, 0-2 disk elements, optionally a nested "
-        "sequence), then 3-9 actions: solve root / solve one unit / re-solve with another or a returned profile / keep "
-        "handles / deep copy (root or nested) and continue on copy and original / append / replace / change gap / "
+        "composition dict, ndarray, tag set; in 25% the caller reads values on the profile before he hands it over), 1-6 "
+        "units in rolling order (two-roll oval/round chain or three-roll chain, transports, cooling pipes, 0-2 explicit "
+        "rotators of 45/90/180 (three-roll: 60/120/180) degrees between two passes, pass rotation False / True / an explicit "
+        "angle completing the turn, 0-2 disk elements, roll templates read before use (30%) and one Roll object used for "
+        "two passes (25% two positions later, 50% of the replacements), optionally a nested sequence), then 3-9 actions: "
+        "solve root / solve one unit / walk through a sequence unit by unit with the returned profiles / re-solve with "
+        "another or a returned profile / keep handles / deep copy (root or nested) and continue on copy and original / "
+        "append / replace / change gap / read values on a profile, a template, a unit, its roll or its profiles / "
         "register a classifier hook on a throw-away Transport subclass; ~8% of the cases contain a physically "
         "infeasible pass (solve raises inside pyroll: only the oracle runs from there). A case is non-trivial when it "
         "contains a re-solve, a deep copy or an edit after a solve; distinct by the op list.")
@@ -47,10 +56,17 @@ ASSUMPTIONS = [
     "implementation's own log messages)",
     "the effect trace of solve is as good as the hand-written model: it is tied to the code by the sampled comparison "
     "of written objects and aliasing graphs (K) and by the translated write list / producers (T)",
+    "hook value caches are modelled as MAY-effects (which names a solve caches depends on the registered hook "
+    "functions): the model says on which objects a cache can change, the comparison checks that the implementation "
+    "changes no other; what the caller's own reading caches is an input of the model (observed on the implementation)",
+    "a solve whose solution loops need more than 400 iterations in total (non-converging pass) ends the model side of "
+    "that history (the interpreted model would need minutes); the oracle continues",
     "user processors and user hook functions are outside the statement (the core hands values on by reference; a user "
     "function that mutates a received set in place changes every profile sharing it - see notes/C12.md, O1)",
 ]
 TRUSTED_EXTRA = ["driver/translate/c12_effects.py (ast -> Heap.Prog / write lists), executed against the model by the harness"]
+
+MODEL_MAX_ITERATIONS = 400      # per solve op, summed over all nested solution loops
 
 FIELD = {"cross_section": 0, "classifiers": 1, "technologically_orientated_cross_section": 2,
          "material": 10, "chemical_composition": 11, "my_array": 12, "my_tags": 13}
@@ -224,13 +240,20 @@ class Dumper:
         t, s = weak_of(o, attr)
         return s if t is None else self.cls(t)
 
+    @staticmethod
+    def cflag(o):
+        """is anything in the hook value cache? (roll templates, pass rolls, plain profiles)"""
+        return "1" if o.__dict__.get("__cache__") else "0"
+
     def prof(self, p):
         if p is None:
             return "_"
         c = self.cls(p)
         fs = ",".join(f"f{code}={self.cls(v)}" for code, v in public_refs(p))
         w = self.weak(p, "_unit")
-        return f"p{c}:{self.lib.kind(p)}{{{fs};w={w}}}"
+        k = self.lib.kind(p)
+        cf = f";c={self.cflag(p)}" if k == "P" else ""
+        return f"p{c}:{k}{{{fs};w={w}{cf}}}"
 
     def roll(self, r):
         if r is None:
@@ -239,7 +262,7 @@ class Dumper:
         g = r.__dict__.get("groove")
         gs = "_" if g is None else self.cls(g)
         w = self.weak(r, "_roll_pass")
-        return f"r{c}{{g={gs};w={w}}}"
+        return f"r{c}{{g={gs};w={w};c={self.cflag(r)}}}"
 
     def unit(self, u, fuel=6):
         c = self.cls(u)
@@ -269,7 +292,7 @@ class Dumper:
             return f"g{c}{{cl={self.cls(o._classifiers)}}}"
         if k == "template":
             c = self.cls(o)
-            return f"t{c}{{g={self.cls(o.groove)}}}"
+            return f"t{c}{{g={self.cls(o.groove)};c={self.cflag(o)}}}"
         if k == "passroll":
             return self.roll(o)
         if k in ("P", "I", "O"):
@@ -356,6 +379,18 @@ def _mutable_types():
     return MUTABLE
 
 
+class _Problems(list):
+    """list of (key, text); remembers after how many ops a key was reported first (replays are cut there)"""
+
+    def __init__(self, oracle):
+        super().__init__()
+        self.oracle = oracle
+
+    def append(self, item):
+        self.oracle.first_at.setdefault(item[0], self.oracle.nops)
+        super().append(item)
+
+
 class Oracle:
     """the property as stated, on real objects only"""
 
@@ -365,7 +400,10 @@ class Oracle:
         self.returned = []        # (obj, snap)
         self.profiles = {}        # id -> (obj, snap)     every in/out/returned/caller profile ever seen
         self.values = {}          # id -> (obj, fingerprint, where) mutable values reachable from a profile
-        self.problems = []        # (key, text)
+        self.state = {}           # id -> (what, obj, snap) every unit / pass roll ever seen ("positions")
+        self.problems = _Problems(self)   # (key, text)
+        self.nops = 0             # number of ops applied so far (set by World.apply)
+        self.first_at = {}        # key -> number of ops after which it was first reported
 
     # -- registration -------------------------------------------------------------------------
     def add_input(self, what, o):
@@ -395,18 +433,37 @@ class Oracle:
                 self.units_below(c, acc, depth + 1)
         return acc
 
+    def see_unit(self, u):
+        if id(u) not in self.state:
+            self.state[id(u)] = ("unit", u, snap(u))
+        r = u.__dict__.get("roll")
+        if r is not None and hasattr(r, "__dict__") and id(r) not in self.state:
+            self.state[id(r)] = ("roll", r, snap(r))
+
     def scan(self, roots):
-        """see every profile attached to a unit below the given roots"""
+        """see every unit below the given roots, its roll and the profiles attached to it"""
         for r in roots:
             for u in self.units_below(r):
+                self.see_unit(u)
                 for a in ("in_profile", "out_profile"):
                     p = u.__dict__.get(a)
                     if p is not None:
                         self.see_profile(p)
 
+    def hosts_below(self, u):
+        """ids of the units below (and including) u and of their rolls: what a solve of u works on"""
+        ids = set()
+        for x in self.units_below(u):
+            ids.add(id(x))
+            r = x.__dict__.get("roll")
+            if r is not None:
+                ids.add(id(r))
+        return ids
+
     # -- checks ---------------------------------------------------------------------------------
-    def check(self, op, allowed, roots):
-        """after an op: `allowed` = ids of the profile objects the op may legitimately rewrite"""
+    def check(self, op, allowed, roots, allowed_hosts=frozenset()):
+        """after an op: `allowed` = ids of the profile objects the op may legitimately rewrite, `allowed_hosts` = ids
+        of the units / rolls it works on"""
         for what, o, s in self.inputs:
             if snap(o) != s:
                 self.problems.append((f"input-modified:{what}:{op}", f"{what} passed in by the caller was modified by {op}: "
@@ -429,13 +486,49 @@ class Oracle:
                 self.problems.append((f"value-mutated-in-place:{where.split('.')[-1]}:{op}",
                                       f"the {type(x).__name__} attached as {where} was modified in place by {op}: "
                                       f"{str(f)[:120]} -> {str(fp(x))[:120]}"))
-        # new baseline
+        # "never lets state leak between positions": a unit (or the roll of a pass) that is not part of what is being
+        # solved / edited keeps every explicit entry (identity and value) and every value it has evaluated already.
+        # Its hook cache may GAIN entries: a neighbour reading one of its hooks (Transport.length from the passes'
+        # locations, a rotator asking the next pass for its classifiers) evaluates it there - that is a read.
+        for hid, (what, o, s) in self.state.items():
+            if hid in allowed_hosts:
+                continue
+            s2 = snap(o)
+            if s2 != s and not _only_cache_gain(s, s2):
+                self.problems.append((f"position-state-modified:{what}:{op}", f"a {type(o).__name__} "
+                                      f"{getattr(o, 'label', '') or ''!r} outside the sub-tree being solved/edited was "
+                                      f"modified by {op}: " + _diff(s, s2)))
+        self.rebase(roots)
+
+    def rebase(self, roots):
+        """new baseline (after an op was checked, or after the CALLER himself read values on the objects)"""
         self.scan(roots)
+        self.check_caches()
         for pid, (p, s) in list(self.profiles.items()):
             self.profiles[pid] = (p, snap(p))
         self.values = {k: (x, fp(x), w) for k, (x, f, w) in self.values.items()}
         self.returned = [(p, snap(p)) for p, _ in self.returned]
         self.inputs = [(w, o, snap(o)) for w, o, _ in self.inputs]
+        self.state = {k: (w, o, snap(o)) for k, (w, o, _) in self.state.items()}
+
+    def check_caches(self):
+        """no aliasing: the store of evaluated values (`__cache__`) of an object passed in, of a unit, a roll or a
+        profile is that object's own - two of them sharing one dict means that evaluating a value at one position
+        (or on a template) writes it into the other"""
+        owner = {}
+        known = [(w, o) for w, o, _ in self.inputs] + [(w, o) for w, o, _ in self.state.values()] \
+            + [(self.lib.kind(p), p) for p, _ in self.profiles.values()]
+        for what, o in known:
+            c = getattr(o, "__dict__", {}).get("__cache__")
+            if not isinstance(c, dict):
+                continue
+            first = owner.setdefault(id(c), (what, o))
+            if first[1] is not o:
+                a, b = sorted([str(first[0]), str(what)])
+                key = f"cache-shared:{a}+{b}"
+                if not any(k == key for k, _ in self.problems):
+                    self.problems.append((key, f"the {type(first[1]).__name__} ({first[0]}) and the {type(o).__name__} "
+                                          f"({what}) share ONE hook value cache (entries: {sorted(c)[:8]})"))
 
     def reach(self, root):
         """every object reachable from root through attributes, containers and weak references"""
@@ -523,6 +616,13 @@ class Oracle:
                                           f"{type(o).__name__} points outside the copy"))
 
 
+def _only_cache_gain(a, b):
+    a, b = a.key, b.key
+    if a[0] != "host" or b[0] != "host" or a[1] != b[1]:
+        return False
+    return all(k in b[2] and b[2][k] == v for k, v in a[2].items())
+
+
 def _diff(a, b):
     a, b = a.key, b.key
     if a[0] != "host" or b[0] != "host":
@@ -560,6 +660,8 @@ class World:
         self.hooked = []          # (hook, function) registered on throw-away classes
         self.failed_solve = False
         self.ops = []
+        self.tpl_of = {}          # slot of a pass -> slot of the roll template it was built from
+        self.model_cut = False
 
     # -- plumbing -------------------------------------------------------------------------------
     def emit(self, line, expect):
@@ -589,9 +691,46 @@ class World:
     def all_roots(self):
         return [u for u in self.slots if self.lib.kind(u) == "unit" and u.parent is None]
 
-    def finish_op(self, name, allowed):
-        self.oracle.check(name, allowed, self.all_roots())
+    def finish_op(self, name, allowed, hosts=frozenset()):
+        self.oracle.check(name, allowed, self.all_roots(), hosts)
         self.emit("dump", dump(self.lib, self.slots))
+
+    def cache_state(self):
+        """(name, object, identity+value of the cache entries) of every named hook host"""
+        res = []
+        for k, o in enumerate(self.slots):
+            for n, x in names_of(self.lib, k, o):
+                c = getattr(x, "__dict__", {}).get("__cache__") if not isinstance(x, (set, dict, list)) else None
+                if isinstance(c, dict):
+                    res.append((n, x, {a: (id(v), fp(v)) for a, v in c.items()}, list(c.values())))
+        return res
+
+    def emit_look(self, pre):
+        """tell the model on which named objects the caller's reading left cached values"""
+        if not self.model_ok:
+            return
+        ns = []
+        for n, x, c, _hold in pre:
+            now = x.__dict__.get("__cache__") or {}
+            if {a: (id(v), fp(v)) for a, v in now.items()} != c and n not in ns:
+                ns.append(n)
+        self.emit("look " + (",".join(ns) if ns else "-"), "ok")
+        self.emit("dump", dump(self.lib, self.slots))
+
+    def read(self, o, names):
+        """what a caller does when he looks at an object: read attributes (dotted paths).  Reading evaluates hooks
+        and fills hook caches; a value that is not available (yet) is the caller's problem, not a finding"""
+        from driver import core
+        for n in names:
+            x = o
+            try:
+                for part in n.split("."):
+                    x = getattr(x, part)
+                    if x is None:
+                        break
+            except Exception as e:
+                if not core._raised_in_impl(e) and not isinstance(e, AttributeError):
+                    raise
 
     def subtree_profiles(self, u):
         ids = set()
@@ -630,33 +769,56 @@ class World:
         self.oracle.see_profile(p)
         return k
 
-    def op_pass(self, chain, pos, rot, disks, gapj):
+    def op_pass(self, chain, pos, rot, disks, gapj, like=None, look=()):
+        """`rot`: bool (automatic rotation on/off) or an explicit angle; `like`: slot of an earlier pass whose roll
+        template is used again (one Roll object for two passes); `look`: attributes the caller reads on the
+        template BEFORE he hands it to the pass constructor"""
         pr = self.lib.pr
+        rotation = rot if isinstance(rot, bool) else float(rot)
+        kw = {}
+        if disks:
+            kw["disk_element_count"] = disks
+        cls = pr.ThreeRollPass if chain == "3" else pr.TwoRollPass
+        if like is not None and like in self.tpl_of:
+            kt = self.tpl_of[like]
+            tpl = self.slots[kt]
+            if look:
+                pre = self.cache_state() if self.model_ok else None
+                self.read(tpl, look)
+                self.oracle.rebase(self.all_roots())
+                self.emit_look(pre)
+            u = cls(label=f"pass{pos}", roll=tpl, gap=2e-3 * gapj, rotation=rotation, **kw)
+            ku = self.reg(u)
+            self.emit(f"pass {1 if rot else 0} {disks} {kt}", "ok")
+            self.emit("dump", dump(self.lib, self.slots))
+            self.tpl_of[ku] = kt
+            return ku
         if chain == "3":
             g = (pr.CircularOvalGroove(depth=8e-3, r1=6e-3, r2=40e-3, pad_angle=30) if pos % 2 == 0
                  else pr.RoundGroove(r1=3e-3, r2=25e-3, depth=11e-3, pad_angle=30))
-            cls = pr.ThreeRollPass
         else:
             g = [lambda: pr.CircularOvalGroove(depth=8e-3, r1=6e-3, r2=40e-3),
                  lambda: pr.RoundGroove(r1=1e-3, r2=12.5e-3, depth=11.5e-3),
                  lambda: pr.CircularOvalGroove(depth=6e-3, r1=6e-3, r2=35e-3),
                  lambda: pr.RoundGroove(r1=1e-3, r2=10e-3, depth=9e-3)][pos % 4]()
-            cls = pr.TwoRollPass
         tpl = pr.Roll(groove=g, nominal_radius=160e-3, rotational_frequency=1)
-        kw = {}
-        if disks:
-            kw["disk_element_count"] = disks
-        u = cls(label=f"pass{pos}", roll=tpl, gap=2e-3 * gapj, rotation=bool(rot), **kw)
+        if look:
+            self.read(tpl, look)
+        u = cls(label=f"pass{pos}", roll=tpl, gap=2e-3 * gapj, rotation=rotation, **kw)
         kv = self.reg(g._classifiers)
         self.emit("value 5", "ok")
         kg = self.reg(g)
         self.emit(f"groove {kv}", "ok")
         kt = self.reg(tpl)
         self.emit(f"template {kg}", "ok")
+        if tpl.__dict__.get("__cache__"):
+            self.emit(f"look {kt}", "ok")
         ku = self.reg(u)
         self.emit(f"pass {1 if rot else 0} {disks} {kt}", "ok")
+        self.emit("dump", dump(self.lib, self.slots))       # the pass roll starts with an empty cache of its own
         self.oracle.add_input("groove", g)
         self.oracle.add_input("roll-template", tpl)
+        self.tpl_of[ku] = kt
         return ku
 
     def op_transport(self, disks, sub, cooling):
@@ -691,6 +853,7 @@ class World:
         u, p = self.slots[ku], self.slots[kp]
         pre = self.before() if self.model_ok else None
         allowed = self.subtree_profiles(u)
+        hosts = self.oracle.hosts_below(u)
         err = None
         with capture_iters() as h:
             try:
@@ -704,16 +867,23 @@ class World:
             # the solve raised inside pyroll (infeasible pass): the model cannot follow; the oracle still applies
             self.failed_solve = True
             self.model_ok = False
-            self.oracle.check("failed-solve", allowed | self.subtree_profiles(u), self.all_roots())
+            self.oracle.check("failed-solve", allowed | self.subtree_profiles(u), self.all_roots(),
+                              hosts | self.oracle.hosts_below(u))
             return None
         if self.model_ok and any(c is None for c in h.counts):
             self.model_ok = False
+        if self.model_ok and sum(h.counts) > MODEL_MAX_ITERATIONS:
+            # a solution loop that does not converge (99 iterations of a pass, each solving its disk elements 99
+            # times): the interpreted model needs minutes for it.  The model side of this history ends here (what
+            # was compared so far stays compared); the oracle goes on
+            self.model_ok = False
+            self.model_cut = True
         k = self.reg(r)
         if self.model_ok:
             its = ",".join(str(c) for c in h.counts + [0])
             self.emit(f"solve {ku} {kp} {its}", f"{self.written(pre)} | left=1")
         self.oracle.add_returned(r)
-        self.finish_op("solve", allowed | self.subtree_profiles(u) | {id(r)})
+        self.finish_op("solve", allowed | self.subtree_profiles(u) | {id(r)}, hosts | self.oracle.hosts_below(u))
         return k
 
     def op_keep(self, ku):
@@ -750,15 +920,16 @@ class World:
         q.append(u)
         if self.model_ok:
             self.emit(f"append {kq} {ku}", self.written(pre))
-        self.finish_op("append", set())
+        self.finish_op("append", set(), {id(q), id(u)})
 
     def op_replace(self, kq, i, ku):
         q, u = self.slots[kq], self.slots[ku]
         pre = self.before() if self.model_ok else None
+        old = q._subunits[i]
         q._subunits[i] = u
         if self.model_ok:
             self.emit(f"replace {kq} {i} {ku}", self.written(pre))
-        self.finish_op("replace", set())
+        self.finish_op("replace", set(), {id(q), id(u), id(old)})
 
     def op_gap(self, ku, j):
         u = self.slots[ku]
@@ -766,7 +937,15 @@ class World:
         u.gap = 2e-3 * j
         if self.model_ok:
             self.emit(f"gap {ku}", self.written(pre))
-        self.finish_op("gap", set())
+        self.finish_op("gap", set(), {id(u)})
+
+    def op_inspect(self, k, names):
+        """the caller reads values on an object he holds (a profile, a roll template, a unit): not an operation of
+        the library - nothing is checked, the baseline of the oracle is taken anew afterwards"""
+        pre = self.cache_state() if self.model_ok else None
+        self.read(self.slots[k], names)
+        self.oracle.rebase(self.all_roots())
+        self.emit_look(pre)
 
     def op_hook(self, ku):
         """register a classifier producer on the throw-away OutProfile class of a SubTransport"""
@@ -788,6 +967,7 @@ class World:
 
     def apply(self, op):
         self.ops.append(op)
+        self.oracle.nops = len(self.ops)
         n = op[0]
         return getattr(self, "op_" + n)(*op[1:])
 
@@ -795,6 +975,46 @@ class World:
 # ---------------------------------------------------------------------------------------------------
 # generation (interleaved with execution: the generator sees the real structure)
 # ---------------------------------------------------------------------------------------------------
+# what a caller typically looks at (print-out, plot) - on a roll template before he builds a pass from it, on a
+# profile before he hands it to solve, on a unit / its roll / its profiles before and after solving
+LOOK_TEMPLATE = ["working_radius", "contour_line", "width", "max_radius", "min_radius", "contour_points",
+                 "surface_velocity", "working_velocity", "nominal_diameter"]
+LOOK_PROFILE = ["height", "width", "equivalent_radius", "equivalent_rectangle", "cross_section", "classifiers",
+                "equivalent_height", "length", "material"]
+LOOK_UNIT = {1: ["roll.working_radius", "roll.contour_line", "roll.min_radius", "roll.contact_area", "roll.contact_length",
+                 "roll.roll_power", "roll.working_velocity", "height", "usable_width", "classifiers", "contour_lines",
+                 "usable_cross_section", "velocity", "volume", "out_profile.height", "out_profile.width",
+                 "in_profile.equivalent_radius", "out_profile.filling_ratio", "rotation"],
+             2: ["length", "duration", "velocity", "out_profile.height", "in_profile.width", "out_profile.classifiers"],
+             3: ["length", "duration", "out_profile.height", "in_profile.width", "volume"],
+             4: ["rotation", "out_profile.width", "out_profile.classifiers", "in_profile.height", "duration"]}
+
+
+def some(rng, pool, hi=3):
+    return rng.sample(pool, rng.randrange(1, min(hi, len(pool)) + 1))
+
+
+def pass_rotation(rng, chain, pos, acc, infeasible):
+    """`rotation=` of the next pass: the explicit rotators since the last pass turned the profile by `acc` degrees;
+    the pass adds what is missing for the profile to enter in working position - `False`, `True` (automatic: the hook
+    functions of `Rotator.rotation` decide) or an explicit angle (also where `True` would give the same)"""
+    mod, need, auto = (120, 60, 180) if chain == "3" else (180, 90, 90)
+    if pos == 0:
+        # the caller's round profile: any position will do
+        r = rng.random()
+        return False if r < 0.4 else True if r < 0.8 else rng.choice([mod, auto, 45])
+    residual = (need - acc) % mod
+    if residual == 0:
+        rot = False if rng.random() < 0.75 else mod
+    elif residual == auto % mod:
+        rot = True if rng.random() < 0.7 else rng.choice([auto, residual])
+    else:
+        rot = residual
+    if infeasible and rng.random() < 0.7:
+        rot = not rot
+    return rot
+
+
 def gen_history(rng, w, n_actions, infeasible):
     lib = w.lib
     chain = "3" if rng.random() < 0.12 else "A"
@@ -803,31 +1023,38 @@ def gen_history(rng, w, n_actions, infeasible):
     for _ in range(1 if rng.random() < 0.6 else 2):
         extras = [e for e in extras_pool if rng.random() < 0.5]
         profs.append(w.apply(("profile", chain, extras)))
-    # units in rolling order
+    # units in rolling order; between two passes the profile is turned by explicit rotators (0-2, any angle, transports
+    # in between) and / or by the rotation of the following pass
     n_units = rng.randrange(1, 7)
     units = []
     pos = 0
-    after_rot = False
+    acc, nrot = 0, 0
     max_pass = 2 if chain == "3" else 4
+    angles = [120, 180, 60] if chain == "3" else [45, 90, 180]
     subs = []
+    pass_at = {}
     while len(units) < n_units:
         r = rng.random()
         if r < 0.5 and pos < max_pass:
-            rot = (not after_rot) if pos > 0 else rng.random() < 0.5
-            if infeasible and pos > 0 and rng.random() < 0.7:
-                rot = not rot
-            units.append(w.apply(("pass", chain, pos, rot, rng.choice([0, 0, 1, 2]), rng.choice([1.0, 0.9, 1.1]))))
+            rot = pass_rotation(rng, chain, pos, acc, infeasible)
+            like = pass_at.get(pos - 2) if rng.random() < 0.25 else None      # the same roll object two passes later
+            look = some(rng, LOOK_TEMPLATE) if rng.random() < 0.3 else []
+            k = w.apply(("pass", chain, pos, rot, rng.choice([0, 0, 1, 2]), rng.choice([1.0, 0.9, 1.1]), like, look))
+            units.append(k)
+            pass_at[pos] = k
             pos += 1
-            after_rot = False
+            acc, nrot = 0, 0
         elif r < 0.8:
             sub = rng.random() < 0.35
             k = w.apply(("transport", rng.choice([0, 0, 1, 2]), sub, (not sub) and rng.random() < 0.3))
             units.append(k)
             if sub:
                 subs.append(k)
-        elif pos > 0 and pos < max_pass and not after_rot and chain == "A":
-            units.append(w.apply(("rotator", 90)))
-            after_rot = True
+        elif pos < max_pass and nrot < 2:
+            a = rng.choice(angles)
+            units.append(w.apply(("rotator", a)))
+            acc += a
+            nrot += 1
         else:
             units.append(w.apply(("transport", 0, False, False)))
     # optional nesting of a contiguous range
@@ -844,10 +1071,13 @@ def gen_history(rng, w, n_actions, infeasible):
     copies = []
     returned = []
     kept_out = []
+    if rng.random() < 0.25:
+        # values read on the objects BEFORE they are handed to solve
+        w.apply(("inspect", rng.choice(profs), some(rng, LOOK_PROFILE)))
     for _ in range(n_actions):
         r = rng.random()
         all_roots = [root] + copies
-        if not solved or r < 0.30:
+        if not solved or r < 0.26:
             tgt = rng.choice(all_roots)
             src = rng.choice(profs + (returned[-2:] if rng.random() < 0.3 else []))
             k = w.apply(("solve", tgt, src))
@@ -855,7 +1085,7 @@ def gen_history(rng, w, n_actions, infeasible):
                 break
             returned.append(k)
             solved = True
-        elif r < 0.42:
+        elif r < 0.37:
             # solve ONE unit (a later position) with what its predecessor handed over, or with a caller profile
             q = w.slots[rng.choice(all_roots)]
             lst = list(q._subunits)
@@ -876,22 +1106,40 @@ def gen_history(rng, w, n_actions, infeasible):
             if k is None:
                 break
             returned.append(k)
+        elif r < 0.44:
+            # the caller walks through a sequence himself: every unit solved on its own with the profile its
+            # predecessor returned (what `_solve_subunits` does, but every hand-over passes through the caller's hands)
+            q = w.slots[rng.choice(all_roots)]
+            src = rng.choice(profs) if rng.random() < 0.75 or not returned else returned[-1]
+            failed = False
+            for u in list(q._subunits):
+                ku = w.find(u)
+                if ku is None:
+                    break
+                k = w.apply(("solve", ku, src))
+                if k is None:
+                    failed = True
+                    break
+                returned.append(k)
+                src = k
+            if failed:
+                break
         elif r < 0.52:
             q = w.slots[rng.choice(all_roots)]
             cand = [w.find(u) for u in w.oracle.units_below(q) if u.__dict__.get("out_profile") is not None]
             cand = [c for c in cand if c is not None]
             if cand:
                 w.apply(("keep", rng.choice(cand)))
-        elif r < 0.68:
+        elif r < 0.66:
             tgt = rng.choice(all_roots + ([nested] if nested is not None and rng.random() < 0.4 else []))
             c = w.apply(("deepcopy", tgt))
             if c is not None and w.slots[c].parent is None and tgt != nested:
                 copies.append(c)
-        elif r < 0.78:
+        elif r < 0.74:
             q = rng.choice(all_roots)
             k = w.apply(("transport", rng.choice([0, 1]), False, False))
             w.apply(("append", q, k))
-        elif r < 0.88:
+        elif r < 0.84:
             q = rng.choice(all_roots)
             lst = list(w.slots[q]._subunits)
             idx = [i for i, u in enumerate(lst) if lib.tag(u) in (1, 2)]
@@ -903,14 +1151,33 @@ def gen_history(rng, w, n_actions, infeasible):
                 k = w.apply(("transport", rng.choice([0, 1, 2]), False, rng.random() < 0.3))
             else:
                 p = int(old.label[4:]) if old.label.startswith("pass") else 0
-                k = w.apply(("pass", chain, p, bool(old.rotation), rng.choice([0, 1]), rng.choice([0.8, 1.2])))
+                rot = old.rotation
+                rot = rot if isinstance(rot, bool) else int(rot)
+                ko = w.find(old)
+                like = ko if ko in w.tpl_of and rng.random() < 0.5 else None     # same roll, other gap
+                look = some(rng, LOOK_TEMPLATE) if rng.random() < 0.3 else []
+                k = w.apply(("pass", chain, p, rot, rng.choice([0, 1]), rng.choice([0.8, 1.2]), like, look))
             w.apply(("replace", q, i, k))
-        elif r < 0.95:
+        elif r < 0.90:
             q = w.slots[rng.choice(all_roots)]
             ps = [w.find(u) for u in w.oracle.units_below(q) if lib.tag(u) == 1]
             ps = [p for p in ps if p is not None]
             if ps:
                 w.apply(("gap", rng.choice(ps), rng.choice([0.8, 0.9, 1.1, 1.2])))
+        elif r < 0.96:
+            # the caller looks at something he holds
+            what = rng.choice(["profile", "template", "unit", "unit"])
+            if what == "profile":
+                w.apply(("inspect", rng.choice(profs + returned[-2:]), some(rng, LOOK_PROFILE)))
+            elif what == "template" and w.tpl_of:
+                w.apply(("inspect", rng.choice(sorted(set(w.tpl_of.values()))), some(rng, LOOK_TEMPLATE)))
+            else:
+                q = w.slots[rng.choice(all_roots)]
+                cand = [(w.find(u), lib.tag(u)) for u in w.oracle.units_below(q) if lib.tag(u) in LOOK_UNIT]
+                cand = [c for c in cand if c[0] is not None]
+                if cand:
+                    k, t = rng.choice(cand)
+                    w.apply(("inspect", k, some(rng, LOOK_UNIT[t])))
         else:
             cand = [k for k in subs if not any(h is type(w.slots[k]).OutProfile.classifiers for h, _ in w.hooked)]
             if cand:
@@ -954,6 +1221,24 @@ CORPUS = [
      ("t4", ("transport", 0, False, False)), (None, ("append", "$s", "$t4")), (None, ("solve", "$s", "$p")),
      ("t5", ("transport", 1, False, False)), (None, ("append", "$s", "$t5")), (None, ("solve", "$s", "$p")),
      (None, ("hook", "$t1")), (None, ("gap", "$a", 0.9)), (None, ("solve", "$s", "$p"))],
+    # two rotations in a row (explicit rotators of different angles, a transport in between, then a pass with an
+    # explicit angle); the caller walks through the sequence himself, then hands a returned (already "rotated") profile
+    # to the whole sequence again
+    [("p", ("profile", "A", ["my_tags"])), ("a", ("pass", "A", 0, True, 0, 1.0)), ("r1", ("rotator", 90)),
+     ("t", ("transport", 0, False, False)), ("r2", ("rotator", 180)), ("b", ("pass", "A", 1, 180, 0, 1.0)),
+     ("r3", ("rotator", 45)), ("s", ("seq", ["$a", "$r1", "$t", "$r2", "$b", "$r3"])), ("x0", ("solve", "$s", "$p")),
+     ("x1", ("solve", "$a", "$p")), ("x2", ("solve", "$r1", "$x1")), ("x3", ("solve", "$t", "$x2")),
+     ("x4", ("solve", "$r2", "$x3")), ("x5", ("solve", "$b", "$x4")), ("x6", ("solve", "$r3", "$x5")),
+     (None, ("solve", "$s", "$p")), (None, ("solve", "$a", "$x6"))],
+    # a roll template the caller looked at before use, the same Roll object used for two passes; values read on the
+    # caller's profile, on a pass and on its roll between the solves
+    [("p", ("profile", "A", ["material"])), (None, ("inspect", "$p", ["height", "equivalent_radius"])),
+     ("a", ("pass", "A", 0, False, 0, 1.0, None, ["working_radius", "contour_line"])),
+     ("t", ("transport", 1, False, False)), ("b", ("pass", "A", 1, True, 0, 1.0)),
+     ("c", ("pass", "A", 2, True, 0, 0.5, "$a", ["width"])), ("s", ("seq", ["$a", "$t", "$b", "$c"])),
+     (None, ("solve", "$s", "$p")), (None, ("inspect", "$a", ["roll.contact_area", "roll.roll_power", "height"])),
+     (None, ("solve", "$c", "$p")), ("k", ("keep", "$b")), (None, ("solve", "$c", "$k")), (None, ("solve", "$s", "$p")),
+     ("a2", ("pass", "A", 0, False, 1, 1.2, "$a", [])), (None, ("replace", "$s", 0, "$a2")), (None, ("solve", "$s", "$p"))],
     # three-roll chain with a cooling pipe
     [("p", ("profile", "3", ["my_tags"])), ("a", ("pass", "3", 0, True, 0, 1.0)), ("t", ("transport", 0, False, True)),
      ("b", ("pass", "3", 1, True, 0, 1.0)), ("s", ("seq", ["$a", "$t", "$b"])), ("r", ("solve", "$s", "$p")),
@@ -1004,7 +1289,9 @@ class Record:
         self.ops = [list(o) for o in w.ops]
         self.lines = w.lines
         self.problems = list(w.oracle.problems)
+        self.first_at = dict(w.oracle.first_at)
         self.failed_solve = w.failed_solve
+        self.model_cut = w.model_cut
         self.stream = stream
         self.graph = dump(w.lib, w.slots)[:1500]
 
@@ -1034,6 +1321,8 @@ def run(ctx):
             ctx.count("op:" + o[0])
         if r.failed_solve:
             ctx.count("solve-raised-inside-pyroll")
+        if r.model_cut:
+            ctx.count("model-side-cut:non-converging-solve")
         if len(ctx.samples) < 3 and r.stream == "random" and nontrivial(ops):
             ctx.sample({"history": canon, "final_graph": r.graph})
         seen = set()
@@ -1041,7 +1330,8 @@ def run(ctx):
             if key in seen:
                 continue
             seen.add(key)
-            ctx.violation(key, text, {"ops": r.ops, "problem": text,
+            # the history up to and including the op after which the oracle reported it
+            ctx.violation(key, text, {"ops": r.ops[:r.first_at.get(key, len(r.ops))], "problem": text,
                                       "how": "driver/props/c12.py run_ops(ops): apply the ops to real objects; "
                                              "World.oracle.problems lists what the oracle found"})
         lean_lines.append("reset")
